@@ -81,6 +81,10 @@ def to_coq(e, cx):
     raise Exception('unsupported ' + n)
 
 def rule_body(r, cx):
+    ps = '[' + ';'.join(str(nm(p)) for p in (r.params or [])) + ']'
+    return f'({ps}, {rule_body0(r, cx)})'
+
+def rule_body0(r, cx):
     if isinstance(r, ex.Class):
         ms = []
         for m in r.members:
@@ -257,10 +261,10 @@ def main():
         except Exception as e:
             skipped['observe:' + type(e).__name__] += 1; continue
         cases.append((gi, body, [(t_, p, f) for t_ in TEXTS for (p, f) in CONF], obs))
-        lines.append(f'Definition g{gi} : list expr := [{"; ".join(bodies)}].')
+        lines.append(f'Definition g{gi} : list (list nat * expr) := [{"; ".join(bodies)}].')
         lines.append(f'Definition tb{gi} : list (list (list (option nat))) := [{";".join(tables)}].')
         tl = '[' + ';'.join(codes(x) for x in TEXTS) + ']'
-        lines.append(f'Eval vm_compute in (flat_map (fun '"'"f'(ti, t) => [parse_model g{gi} None t (tab tb{gi} ti) 300 0 0 true; parse_model g{gi} None t (tab tb{gi} ti) 300 0 0 false; parse_model g{gi} None t (tab tb{gi} ti) 300 0 1 true]) (combine (seq 0 {len(TEXTS)}) {tl})).')
+        lines.append(f'Eval vm_compute in (flat_map (fun '"'"f'(ti, t) => [parse_model false g{gi} [] false None t (tab tb{gi} ti) 300 0 0 true; parse_model false g{gi} [] false None t (tab tb{gi} ti) 300 0 0 false; parse_model false g{gi} [] false None t (tab tb{gi} ti) 300 0 1 true]) (combine (seq 0 {len(TEXTS)}) {tl})).')
     CASEFILE = f'cases_{os.getpid()}.v'
     open(CASEFILE, 'w').write('\n'.join(lines) + '\n')
     r = subprocess.run(['coqc', '-R', '/verif/notes/spike', '', CASEFILE], capture_output=True, text=True, cwd='/tmp/s')
